@@ -60,6 +60,7 @@ def make_body(name, script, rec):
         except Exception:  # noqa: BLE001
             pass
         rec.ev("enter", step=name, inv=inv, ev=type(ev).__name__, i=ev.get("i", None),
+               failed_step=(getattr(ev, "step_name", None) if type(ev).__name__ == "StepFailedEvent" else None),
                retry=(rinfo.retry_number if rinfo else None),
                last_exc=(repr(rinfo.last_exception) if rinfo and rinfo.last_exception else None),
                elapsed=(rinfo.elapsed_seconds if rinfo else None))
@@ -79,6 +80,11 @@ def make_body(name, script, rec):
                     e = a[1](i=next(rec.eid))
                     rec.ev("publish", step=name, inv=inv, ev=a[1].__name__, i=e.i)
                     ctx.write_event_to_stream(e)
+                elif op == "publish_many":
+                    # a burst of stream events written without yielding to the loop in between
+                    for k in range(a[2]):
+                        ctx.write_event_to_stream(a[1](i=k))
+                    rec.ev("publish", step=name, inv=inv, ev=a[1].__name__, i=a[2], burst=True)
                 elif op == "collect":
                     _, expected, buf = a
                     r = ctx.collect_events(ev, list(expected), buffer_id=buf)
@@ -92,6 +98,8 @@ def make_body(name, script, rec):
                     _, cls, reqs, timeout, wid, wev, on_timeout = a[:7]
                     store_key = a[7] if len(a) > 7 else None   # record which event resolved the wait in the state store
                     reqs = {k: (ev.get("i", None) if v == "$i" else v) for k, v in dict(reqs).items()}
+                    if isinstance(wid, str) and "$i" in wid:
+                        wid = wid.replace("$i", str(ev.get("i", None)))
                     try:
                         r = await ctx.wait_for_event(cls, waiter_event=(wev(i=next(rec.eid)) if wev else None),
                                                      waiter_id=wid, requirements=dict(reqs), timeout=timeout)
